@@ -27,6 +27,7 @@ const (
 	VerifWatcher            // the context watcher woke up on ctx.Done and is about to set the done flag
 	VerifAfterSelect        // reflect.Select returned in OpSelect
 	VerifCallNative         // a native function is about to be called
+	VerifDoneSelect         // a channel operation is about to call reflect.Select with the context's done case appended as last case
 )
 
 // VerifEvent describes a hooked point of the execution.
@@ -124,6 +125,12 @@ func verifWatcher(vm *VM) {
 func verifAfterSelect(vm *VM) {
 	if h := verifHook.Load(); h != nil {
 		(*h)(&VerifEvent{Kind: VerifAfterSelect, VM: vm, Cases: vm.cases})
+	}
+}
+
+func verifDoneSelect(vm *VM) {
+	if h := verifHook.Load(); h != nil {
+		(*h)(&VerifEvent{Kind: VerifDoneSelect, VM: vm, Cases: vm.cases})
 	}
 }
 
